@@ -19,6 +19,7 @@
    all of them arrived is C12's theorem. *)
 From Coq Require Import List NArith Bool Arith.
 From DtlsV Require Import Gen.Generated Gen.GeneratedFlights Hs.Abs12 Hs.Abs12Live Hs.Abs12Sound.
+From DtlsV Require Hs.Abs12Early Hs.Abs12EarlySound.
 Import ListNotations.
 Open Scope nat_scope.
 
@@ -92,3 +93,52 @@ Print Assumptions C02_round_interval_bound.
 (* non-vacuity: the adversarial closure of a fragmented variant has more than the happy path *)
 Example C02_closure_nontrivial : length (reach_set 400 g_cfg_cert_mtu200) = 31.
 Proof. vm_compute. reflexivity. Qed.
+
+(* ---- the early-record queue (Conn.encryptedPackets): model Hs/Abs12Early.v, proofs Hs/Abs12EarlySound.v.
+   A record of the next epoch (the Finished) that arrives before its ChangeCipherSpec is put aside by the
+   reader and replayed by the handshake goroutine after the keys are installed.  The replay takes the
+   queue once and discards what is still early: it returns after exactly as many steps as records were
+   queued (the number of records left to replay decreases with every step), for every content and arrival
+   order of the queue, and leaves the queue empty; the socket reader is one total step per record. *)
+Theorem C02_early_queue_terminates : forall s : Abs12Early.est,
+  (forall d d', Abs12Early.dstep false d = Some d' -> Abs12Early.dmeasure d' < Abs12Early.dmeasure d) /\
+  exists d, Abs12Early.diter false (length (Abs12Early.e_queue s)) (Abs12Early.dstart s) = Some d /\
+            Abs12Early.dstep false d = None /\ fst d = Abs12Early.drain s /\
+            Abs12Early.e_queue (fst d) = [].
+Proof. exact Abs12EarlySound.early_queue_terminates. Qed.
+Print Assumptions C02_early_queue_terminates.
+
+Theorem C02_early_reader_never_blocks : forall s r,
+  Abs12Early.recv s r = Abs12Early.step true s r /\
+  (Abs12Early.e_queue (Abs12Early.recv s r) = Abs12Early.e_queue s \/
+   Abs12Early.e_queue (Abs12Early.recv s r) = Abs12Early.e_queue s ++ [r]).
+Proof. exact Abs12EarlySound.reader_total. Qed.
+Print Assumptions C02_early_reader_never_blocks.
+
+(* a Finished queued in front of its ChangeCipherSpec is discarded by the replay and read when the peer
+   retransmits ChangeCipherSpec + Finished (one retransmission round) *)
+Theorem C02_early_finished_discarded_then_recovered : forall s id,
+  Abs12Early.e_keys s = true ->
+  Abs12Early.e_queue s = [Abs12Early.fin (Abs12Early.e_epoch s + 1)%N id] ->
+  Abs12Early.drain s = Abs12Early.with_queue s [] /\
+  Abs12Early.e_out (Abs12Early.recv (Abs12Early.recv (Abs12Early.drain s) (Abs12Early.ccs (Abs12Early.e_epoch s)))
+                                    (Abs12Early.fin (Abs12Early.e_epoch s + 1)%N id))
+    = Abs12Early.e_out s ++ [Abs12Early.fin (Abs12Early.e_epoch s + 1)%N id].
+Proof. exact Abs12EarlySound.discarded_then_recovered. Qed.
+Print Assumptions C02_early_finished_discarded_then_recovered.
+
+Theorem C02_early_in_order_delivered : forall s id,
+  Abs12Early.e_keys s = true ->
+  Abs12Early.e_queue s = [Abs12Early.ccs (Abs12Early.e_epoch s); Abs12Early.fin (Abs12Early.e_epoch s + 1)%N id] ->
+  Abs12Early.e_out (Abs12Early.drain s) = Abs12Early.e_out s ++ [Abs12Early.fin (Abs12Early.e_epoch s + 1)%N id] /\
+  Abs12Early.e_epoch (Abs12Early.drain s) = (Abs12Early.e_epoch s + 1)%N.
+Proof. exact Abs12EarlySound.in_order_delivered. Qed.
+Print Assumptions C02_early_in_order_delivered.
+
+(* the variant that re-enqueues still-early records and goes over the queue "until it is empty" never
+   returns when a Finished is queued and its ChangeCipherSpec is neither queued nor applied: witness
+   Abs12Early.wedge_state (replayed on the implementation by the leg `early` of checks/c02.py) *)
+Theorem C02_early_requeue_loop_refuted : exists s,
+  forall n, exists d, Abs12Early.diter true n (Abs12Early.dstart s) = Some d /\ Abs12Early.dstep true d <> None.
+Proof. exact Abs12EarlySound.requeue_loop_refuted. Qed.
+Print Assumptions C02_early_requeue_loop_refuted.
